@@ -96,6 +96,13 @@ impl PutQuery {
             }
         }
 
+        if self.inflight_requests.is_empty() {
+            // None of the closest nodes gave us a write token (for example when the
+            // lookup we waited for was a `find_node` for the same target), so nothing
+            // was sent and no response will ever arrive: fail instead of waiting forever.
+            Err(PutQueryError::NoClosestNodes)?;
+        }
+
         Ok(())
     }
 
